@@ -184,7 +184,10 @@ def format_runs(chk: Check, n):
         chk.branch("fmt:" + ("pct" if pct else "plain"))
         inp = dict(value=repr(v), sig=sig, pct=pct, fixed_point_range=rg, thousands_sep=ts, decimal_point=dp)
         if txt[0] == "raise":
-            chk.fail("format_num raised on a finite / special number", dict(input=inp, error=txt[1]))
+            overflow = (pct and isinstance(v, float) and math.isfinite(v) and abs(v) > 1.7976931348623157e306
+                        and txt[1].startswith("OverflowError"))
+            chk.fail("format_num raised on a finite / special number", dict(input=inp, error=txt[1]),
+                     finding_key="K4" if overflow else None)
             continue
         text = txt[1]
         if toks[0] == "raise":
